@@ -4,6 +4,10 @@ import json
 props=[json.loads(l) for l in open('properties.jsonl')]
 TRUST="Trusted base: the Go type checker/SSA builder of x/tools v0.29.0; the std functions on the allow-lists behave as documented; exported operations receive values produced by the repo's constructors."
 claimed={
+'C10':dict(technique="static analysis: structural matching of the two-cursor run scanner on SSA; abstract position table of the non-digit comparator and abstract table of the digit comparator (AE); regexp analysis of the upstream/revision split; stage-order queries on Compare",
+ text="Decided: Compare orders by epoch, then upstream, then revision, a missing revision ranking as \"0\"; the version pattern splits at the last hyphen (the revision group cannot contain '-'); the scanner takes, on both sides alike, a maximal non-digit run and then a maximal digit run delimited by unicode.IsDigit only, hands (a-run, b-run) to the non-digit and then the digit comparator and returns their first non-zero result; every abstract position world of the non-digit comparator orders '~' < end of run < letters < all other characters and then by character code, and the function is exactly that loop; the digit comparator orders zero-stripped runs by length and then as text in every abstract world (integer order for any length, empty run = 0).",
+ note=TRUST+" Oracle: dpkg's rules as the property states them. Not decided: that the scanner's slices are exactly the delimited runs (bounds come from the cursor loops; index arithmetic is checked for safety by C06, not for equality with the run); acceptance grammar.",
+ design="DESIGN.md 5 (C10)"),
 'C12':dict(technique="static analysis: abstract position table of maven's Compare (AE) against ComparableVersion's item rules; tabulation of the normaliser and the null predicate; structural rules on tokenizer and trimming",
  text="Decided: every abstract position world of Compare's zip loop agrees with the item rules of the statement (numbers by value; a number above every qualifier; alpha<beta<milestone<rc<snapshot<release<sp<other qualifiers alphabetically; a missing item compared as 0 / as the release qualifier) and Compare is nothing but that loop; the normaliser looks up the lower-cased token with exactly the alias table a/b/m/cr/ga/final/release and every stored element passes through it; trailing null items (number 0, release qualifier) are trimmed by a loop applied once to the complete list. Structural necessary condition for the '.'/'-' clause: the tokenizer must run different code for the two separators - it does not: known finding.",
  note=TRUST+" Oracle: the rules of the property statement, not Maven's class. Not decided: tokenisation at digit/letter transitions; the 'aliases only when followed by a digit' clause (bare single-letter aliases are not claimed); nested-list semantics beyond the structural separator clause.",
